@@ -36,3 +36,28 @@ CLAIMS["C18"] = {
     "note": "Trusted: writes reach storage only through elexmodel.handlers.s3 / the listed local sink idioms; "
             "caller-supplied model_parameters do not override save_conformalization. Not decided: behaviour of boto3.",
 }
+
+CLAIMS["C12"] = {
+    "technique": "who-may-call + provenance: randomness sources in the call-graph closure of the entry points with seed/generator "
+                 "traced to the seed setting; CFG dominance for fresh model/handler; set-order consumer classification; "
+                 "alias/mutation summaries (def-use IR, fixpoint over the call graph) for caller-owned arguments",
+    "level": "Decides for all inputs and call histories the code-shape conditions of reproducibility: no unseeded or globally "
+             "seeded randomness (sample, default_rng, generator draws, scipy bootstrap, stdlib random, clocks) is reachable from "
+             "get_estimates / the national summary; each run constructs a fresh model and results handler before any use; no "
+             "hash-order-dependent iteration reaches data; the DataFrame / list arguments of the entry points are never "
+             "mutated in place. A relation between runs cannot be sampled by single-run tests.",
+    "note": "Trusted: determinism of cvxpy / numpy / pandas for equal inputs. Not tracked: aliasing of caller frames through "
+            "object attributes mutated by a later method; get_historical_evaluation (list(set(..)) there is an observation).",
+}
+CLAIMS["C14"] = {
+    "technique": "def-use terms + CFG dominance + formula normalisation: path condition of the raise as a symbolic comparison, "
+                 "running-maximum recogniser, dominance of the gate over model calls, rational-function equality of the minimum "
+                 "and training-fraction formulas",
+    "level": "Decides the gate clauses for every (alpha list, unit count, estimator): the dedicated error is raised exactly under "
+             "rows(reporting frame) < max over requested levels of model.get_minimum_reporting_units, strictly, on every run, "
+             "before any model computation; duplicate ids raise ModelClientException; the three estimators' minimum and "
+             "training-fraction formulas equal the documented ones. The arithmetic clause (split valid for all (alpha, n)) is "
+             "NOT decided here: it needs reasoning over unbounded integers/reals (and is false at n = minimum, DESIGN.md O1).",
+    "note": "Only the gate, ordering and formula clauses are claimed; numeric validity of the split for all (alpha, n) is out of "
+            "reach of this family and disclosed as observation O1.",
+}
